@@ -30,7 +30,7 @@ Proof. exact @douglas_rowwise. Qed.
 Theorem C18_infer_depends_only_on_row : forall (T : Type) (o : NumOps T) (m : model) (X X' : nat -> nat -> T) i i',
   (forall j, j < n_features m -> X i j = X' i' j) ->
   (forall k, infer o m X i k = infer o m X' i' k) /\ predict o m X i = predict o m X' i'.
-Proof. intros T o m X X' i i' H. split; [exact (infer_row_dependence o m X X' i i' H) | exact (predict_row_dependence o m X X' i i' H)]. Qed.
+Proof. exact @infer_predict_row_dependence. Qed.
 
 (* predict_proba is the forward pass with retain=False, predict its row-wise argmax; both commute with row selection *)
 Theorem C18_predict_is_argmax_rowwise : forall (T : Type) (o : NumOps T) (m : model) (r : nat -> nat) (X : nat -> nat -> T),
@@ -47,7 +47,7 @@ Theorem C18_mlp_retained_state_irrelevant : forall (T : Type) (o : NumOps T) d h
    snd (mlp_infer_st o d h K W1 b1 W2 b2 H_ false X) = H_) /\
   (fst (sparse_mlp_infer_st o d h K W1 b1 W2 b2 Ws H_ retain X) = sparse_mlp_infer o d h K W1 b1 W2 b2 Ws X /\
    snd (sparse_mlp_infer_st o d h K W1 b1 W2 b2 Ws H_ false X) = H_).
-Proof. intros. split; [apply mlp_retain_irrelevant | apply sparse_mlp_retain_irrelevant]. Qed.
+Proof. exact @retained_state_irrelevant. Qed.
 
 (* predicting the training data, or any selection of it, reproduces labels_ *)
 Theorem C18_train_predict_is_labels : forall (T : Type) (o : NumOps T) (m : model) (Xtrain : nat -> nat -> T) (r : nat -> nat) i,
@@ -70,7 +70,7 @@ Theorem C18_kernel_rim_rowwise : forall (T : Type) (o : NumOps T) (kern : (nat -
      (forall i, krim_predict o kern m Xtrain i = krim_fit_labels o m i) /\
      (forall i k, krim_predict_proba o kern m (select r Xtrain) i k = krim_fit_proba o m (r i) k) /\
      (forall i, krim_predict o kern m (select r Xtrain) i = krim_fit_labels o m (r i))).
-Proof. intros T o kern H. split; [exact (krim_rowwise o kern H) | exact (krim_train o kern H)]. Qed.
+Proof. exact @kernel_rim_rowwise. Qed.
 
 (* Tree.predict: whenever the mask-based recursion returns, it returns one label per row, and the label of
    row i is the label reached by routing row i alone *)
